@@ -197,14 +197,16 @@ CHECKS = {
              tech="Lean 4 proof (inductive invariant over operation histories: the logs replay to the acknowledged state; counterexample by kernel evaluation) + build-time source slicing + differential correspondence + oracle", ref="§6 C21"),
  "C22": dict(text="Partial: the property is FALSE of the code (open findings sealedCountStale, readerLagsMetadata; the C23 window feeds the first). Model (Model/Plane.lean): small-step model of the data plane - "
              "per node applied metadata (Meta.applyCmd, the C18 model) from one ordered command log, lease set, per-key write locks, in-memory counters, one FIFO queue with a consumed count per (node, wal key), "
-             "per-node read cursors; PUT / GET / monitor tasks advance from one named point to the next (7 cfg(walrus_verif) hooks + await-apply + tick); scheduler actions step/apply/sync. Theorem: "
+             "per-node read cursors; PUT / GET / monitor tasks advance from one named point to the next (7 cfg(walrus_verif) hooks + await-apply + tick); scheduler actions step/apply/sync. Theorems: "
+             "C22_exactly_once_per_queue + C22_delivered_prefix_of_written (EVERY schedule: the engine queue of every (node, wal key) holds exactly the payloads written to it, in write order, and what GETs were handed from it is "
+             "exactly its consumed prefix - no stored entry returned twice, none invented, write order kept within a segment; invariant carried through all 15 task states by the frame lemma stepTask_qstep); "
              "C22_counterexample (kernel evaluation): two concurrent PUTs with threshold 1 - both acknowledged, the topic read until EMPTY, one acknowledged payload never returned, segment 2 sealed with a stale "
              "count; replayed on the real code on every run. Correspondence: bucket.rs + controller/{mod,internal,types}.rs + monitor.rs + metadata.rs + rpc.rs compiled from /repo on the REAL engine under a "
              "deterministic scheduler, ~550 schedules per quick run (6000 thorough: sequential / concurrent / with monitor; 1-3 nodes; thresholds 1-4; lagging applies) compared line by line with the model incl. "
              "state dumps; oracle: exactly-once, EMPTY only when drained, nothing acknowledged lost, order for sequential producers. Sequential schedules must satisfy the property outright.",
-             note=BASE_NOTE + "No universal theorem for the delivery clause yet: what is proved about every schedule is C23_partial (lease discipline); the positive clause of C22 rests on the correspondence + oracle on sequential "
-             "schedules. Raft is assumed (one ordered log, node 1 leader); tokio and octopii are stand-ins; tasks switch only at the named points; no crash/restart, fixed membership.",
-             tech="Lean 4 small-step model + counterexample by kernel evaluation + schedule-for-schedule differential correspondence on the real code + oracle", ref="§6 C22"),
+             note=BASE_NOTE + "The liveness half of the delivery clause (the cursors reach every acknowledged entry) is false in general and has no theorem for the schedules where it holds: there it rests on the correspondence + "
+             "oracle (sequential schedules must satisfy the whole property). Raft is assumed (one ordered log, node 1 leader); tokio and octopii are stand-ins; tasks switch only at the named points; no crash/restart, fixed membership.",
+             tech="Lean 4 proof (inductive invariant over scheduler actions: queue contents = writes, deliveries = consumed prefix) + counterexample by kernel evaluation + schedule-for-schedule differential correspondence on the real code + oracle", ref="§6 C22"),
  "C23": dict(text="Partial: the property is FALSE of the code (open finding staleLeaseWrite). Same model as C22. Theorems, for EVERY schedule (any cluster size, threshold, topics, any sequence of spawns, task steps, per-node "
              "applies and lease syncs): C23_partial - a write made while the node's lease set is current (nothing applied on the node since its last lease refresh, key still leased) goes to a segment the node's applied "
              "metadata has open and assigns to that node (invariant: metadata has one entry per topic; a lease set refreshed at the current applied index is exactly what the metadata prescribes); "
